@@ -421,6 +421,17 @@ def run_c01_ble(case, R):
                     R.fail("C01.forged-reply-accepted", f"{what}: the request succeeded", family="ble-" + fault)
                 elif w.acc.session is not None and fault != "error-m4":
                     R.fail("C01.forged-reply-accepted", f"{what}: the accessory holds a session", family="ble-" + fault)
+                else:
+                    # the link is still up after the refused pair-verify: whatever is asked next must go through a pair-verify again (and fail again),
+                    # never be served without a session
+                    for n_ in range(2):
+                        try:
+                            r2 = await (p.get_characteristics([(1, 11)]) if n_ == 0 else p.put_characteristics([(1, 11, 3)]))
+                            R.fail("C01.forged-reply-accepted", f"{what}: operation {n_ + 2} on the same pairing was served ({r2!r:.100}) although no pair-verify ever succeeded",
+                                   family="ble-" + fault + "-then-plain")
+                            break
+                        except Exception:  # noqa: BLE001
+                            pass
                 return
             if first[0] != "ok" or first[1] != {(1, 10): {"value": False}}:
                 R.fail("C01.honest-rejected", f"{what}: first request: {first!r:.300}", exc=type(first[1]).__name__ if first[0] == "raise" else "wrong-result")
@@ -683,14 +694,26 @@ def run_c04_ip_verify(case, R):
         ct = HTTP_CTYPES[case["ctype"]]
         w.acc.error_http = (case["http"], "X", ct[0], ct[1])
         w.acc.verify_policy = lambda conn: f"error-{case['step']}:{case['code']}"
-        what = f"IP pair-verify {case['step']} error={case['code']} http={case['http']} content-type={case['ctype']}"
+        what = f"IP pair-verify {case['step']} error={case['code']} http={case['http']} content-type={case['ctype']}" + (" on a reconnection after an earlier session" if case.get("later") else "")
         try:
             p = w.pairing
+            if case.get("later"):
+                # the first session is fine; the error comes when the controller reconnects (the pairing was removed on the accessory meanwhile)
+                err_policy = w.acc.verify_policy
+                w.acc.verify_policy = lambda conn: "ok"
+                await p.list_accessories_and_characteristics()
+                w.acc.verify_policy = err_policy
+                w.acc.conns[-1].close("fin")
+                await vtime.settle(loop)
+                w.acc.all_requests.clear()
             try:
                 await asyncio.wait_for(p.list_accessories_and_characteristics(), 30)
                 outcome = ("ok", None)
             except Exception as e:  # noqa: BLE001
                 outcome = ("raise", e)
+            if outcome[0] == "raise" and case["code"] == 2 and not isinstance(outcome[1], X.AuthenticationError):
+                R.fail("C04.wrong-exception-class", f"{what}: raised {type(outcome[1]).__name__} ({outcome[1]}), documented class is AuthenticationError",
+                       step="ip-verify-" + case["step"], state="expected", decode="ip")
             secure = [r for r in w.acc.all_requests if r.target != "/pair-verify"]
             if outcome[0] == "ok" or p.connection.is_secure or secure:
                 R.fail("C04.error-reply-succeeds", f"{what}: the session was treated as established (outcome {outcome[0]}, is_secure {p.connection.is_secure}, "
@@ -709,6 +732,8 @@ def enum_c04_ip_verify(tier):
                     yield {"step": step, "code": code, "http": http, "ctype": ct}
                 for hdr in ("lower", "upper"):
                     yield {"step": step, "code": code, "http": http, "ctype": "exact", "hdr": hdr}
+            yield {"step": step, "code": code, "http": 200, "ctype": "exact", "later": True}
+            yield {"step": step, "code": code, "http": 470, "ctype": "charset", "later": True}
 
 
 C04_IP_LAYERS = [Layer("ip-pairings", run_c04_ip, enumerate=enum_c04_ip, exhaustive=True,
@@ -728,12 +753,16 @@ def run_c01_ip(case, R):
         w = IpWorld(loop, k=case.get("k", 0), hosts=(case.get("host", "10.0.0.5"),))
         w.acc.verify_policy = lambda conn: policy
         w.acc.frame_sizes = case.get("sizes") or [1024]
+        if case.get("http"):        # status line / Content-Type spelling / header-name spelling of the error replies
+            ct = HTTP_CTYPES[case["http"][1]]
+            w.acc.error_http = (case["http"][0], "X", ct[0], ct[1])
+            w.acc.header_names = case["http"][2]
         try:
             p = w.pairing
             t = asyncio.ensure_future(p.get_characteristics([(1, 9)]))
             await asyncio.sleep(15)
             await vtime.settle(loop)
-            what = f"IP verify policy={policy}"
+            what = f"IP verify policy={policy}" + (f" http={case['http']}" if case.get("http") else "")
             if policy == "ok":
                 if not t.done() or t.exception() or t.result() != {(1, 9): {"value": False}}:
                     R.fail("C01.honest-rejected", f"{what}: request {t!r:.200}", exc="request")
@@ -751,6 +780,19 @@ def run_c01_ip(case, R):
     vtime.run(main)
 
 
-C01_IP_LAYERS = [Layer("ip-transport", run_c01_ip, enumerate=lambda tier: ({"policy": pol, "k": k, "host": h, "sizes": s} for pol in ("ok", "bad-sig", "wrong-id", "bad-tag", "error-m2:2", "error-m4:2", "garbage-m2")
-                                                                         for k in range(2 if tier == "quick" else 20) for h, s in (("10.0.0.5", [1024]), ("fd00::9", [1, 300]))),
-                       exhaustive=True, space="honest + 6 verify faults x 2 (quick) / 20 (thorough) key sets x IPv4/IPv6 peer and frame sizes", min_nontrivial=10)]
+def enum_c01_ip(tier):
+    for pol in ("ok", "bad-sig", "wrong-id", "bad-tag", "error-m2:2", "error-m4:2", "garbage-m2"):
+        for k in range(2 if tier == "quick" else 20):
+            for h, s in (("10.0.0.5", [1024]), ("fd00::9", [1, 300])):
+                yield {"policy": pol, "k": k, "host": h, "sizes": s}
+    # the accessory refuses the controller (its pairing was removed ...) and says so under every HTTP envelope
+    for pol in ("error-m2:2", "error-m4:2", "error-m4:6"):
+        for status in (200, 400, 470, 500):
+            for ct in HTTP_CTYPES:
+                yield {"policy": pol, "k": 0, "http": [status, ct, "title"]}
+            yield {"policy": pol, "k": 0, "http": [status, "exact", "lower"]}
+
+
+C01_IP_LAYERS = [Layer("ip-transport", run_c01_ip, enumerate=enum_c01_ip,
+                       exhaustive=True, space="honest + 6 verify faults x 2 (quick) / 20 (thorough) key sets x IPv4/IPv6 peer and frame sizes; error replies under 4 status lines x 7 Content-Type "
+                                              "spellings / lower-case header names", min_nontrivial=10)]
